@@ -96,6 +96,10 @@ def retype(lines, typ, shift, rng=None):
         elif t[0] == "p":
             out.append("p %s" % f(t[1]))
             twin([f(t[1])])
+        elif t[0] == "qm":
+            out.append("qm %s %s %s" % (t[1], f(t[2]), f(t[3])))
+        elif t[0] == "pm":
+            out.append("pm %s %s" % (t[1], f(t[2])))
         elif t[0] == "w":
             out.append("w %s %s" % (t[1], f(t[2])))
         else:
@@ -107,10 +111,16 @@ def all_intervals(u):
     return [(lo, hi) for lo in range(u) for hi in range(lo, u)]
 
 
+MODES = ["co", "cu", "ga"]
+
+
 def all_queries(u, inverted=False):
     """every [lb,ub] with lb <= ub over {0..u} (one beyond the universe: "after"), every point, optionally a few lb > ub"""
     qs = ["q %d %d" % (lb, ub) for lb in range(u + 1) for ub in range(lb, u + 1)]
     qs += ["p %d" % x for x in range(u + 1)]
+    # every query again with a callback that modifies the caller's bound variables (coalescing / cursor / garbage)
+    qs += ["qm %s %d %d" % (MODES[(lb + ub) % 3], lb, ub) for lb in range(u + 1) for ub in range(lb, u + 1)]
+    qs += ["pm %s %d" % (MODES[x % 3], x) for x in range(u + 1)]
     if inverted:
         qs += ["q %d %d" % (lb, ub) for lb in range(1, u + 1) for ub in range(0, lb)]
     return qs
@@ -131,7 +141,11 @@ def enum_script(n, u, k, inverted=False, typ="u64"):
         # arguments of another arithmetic type (mirror of enum_script in harness.cpp / driver.ml)
         f = lambda e: fmt_endpoint("i64" if typ == "i32" else typ, e, 4)
         ins = ["i %s %s %d" % (f(lo), f(hi), j) for j, (lo, hi) in enumerate(seq)]
-        qs = [("q %s %s" % (f(int(q.split()[1])), f(int(q.split()[2])))) if q[0] == "q" else "p %s" % f(int(q.split()[1])) for q in qs]
+        def cv(q):
+            t = q.split()
+            k = 2 if t[0] in ("qm", "pm") else 1
+            return " ".join(t[:k] + [f(int(x)) for x in t[k:]])
+        qs = [cv(q) for q in qs]
         fl = typ == "f64"
         qs += ["qt %s %s %s" % ("f32" if fl else IKINDS[(lb + ub) % 4], f(lb), f(ub)) for lb in range(4, u + 1) for ub in range(lb, u + 1)]
         qs += ["pt %s %s" % ("f32" if fl else IKINDS[p % 4], f(p)) for p in range(4, u + 1)]
@@ -189,10 +203,15 @@ def _query(rng, st, U, lines):
         l, h = rng.choice(ivs); lb = rng.randrange(l, h + 1); ub = rng.randrange(lb, h + 1)
     elif kind == "span" and ivs:
         l, h = rng.choice(ivs); lb = max(0, l - rng.randrange(0, 3)); ub = h + rng.randrange(0, 3)
-    elif kind == "point":
-        lines.append("p %d" % rng.randrange(0, U + 1)); return
-    elif kind == "point-end" and ivs:
-        l, h = rng.choice(ivs); lines.append("p %d" % rng.choice([l, h, h + 1, max(0, l - 1)])); return
+    elif kind == "point" or (kind == "point-end" and ivs):
+        if kind == "point":
+            x = rng.randrange(0, U + 1)
+        else:
+            l, h = rng.choice(ivs); x = rng.choice([l, h, h + 1, max(0, l - 1)])
+        lines.append("p %d" % x)
+        if rng.random() < 0.35:
+            lines.append("pm %s %d" % (rng.choice(MODES), x))
+        return
     elif kind == "inverted":                    # lb > ub: outside the property, correspondence only
         ub = rng.randrange(0, U); lb = ub + 1 + rng.randrange(0, max(1, U // 2))
     elif kind == "all":
@@ -200,6 +219,8 @@ def _query(rng, st, U, lines):
     else:
         lb = rng.randrange(0, U + 1); ub = rng.randrange(lb, U + 2)
     lines.append("q %d %d" % (lb, ub))
+    if lb <= ub and rng.random() < 0.35:
+        lines.append("qm %s %d %d" % (rng.choice(MODES), lb, ub))
 
 
 def _interval(rng, st, U, style):
@@ -447,6 +468,12 @@ def corpus():
         for typ in ("i64", "i32", "f64"):
             for shift in (100, 4):
                 cs.append(("%s-%s-%d" % (name.replace("corpus-", "corpus-%s-" % typ), "s", shift), retype(ls, typ, shift)))
+    # seeded change C07-r6-2 (bounds taken as const P & alias the caller's variables): coalescing callback widens the bounds
+    # during the traversal and [7,9] / [0,1] are reported for the query [3,4]; cursor advance in the point query
+    cs.append(("corpus-qmut", ["cfg 6 full 1", "i 4 6 0", "i 2 3 1", "i 7 9 2", "i 0 1 3", "i 5 8 4", "q 3 4", "qm co 3 4", "qm cu 3 4", "qm ga 3 4",
+                               "p 3", "pm co 3", "pm cu 3", "pm ga 3", "qm co 2 2", "pm cu 2", "qm ga 0 9"]))
+    cs.append(("corpus-qmut-f64", ["cfg 6 full 1 f64", "i -1 0.5 0", "i -2 -1.25 1", "i 0.75 2 2", "i -4 -3 3", "i 0 1 4", "q -1.25 -1", "qm co -1.25 -1",
+                                   "qm cu -1.25 -1", "qm ga -1.25 -1", "pm co -1.25", "pm cu -1", "pm ga 0"]))
     # seeded change C07-r5-1 (query bounds as deduced template types, compared per operand): a signed tree with a negative
     # bound, the query passed as size_t / unsigned -- the usual arithmetic conversions make -3 a huge unsigned number
     cs.append(("corpus-qtype-i64", ["cfg 4 full 1 i64", "i -3 2 0", "i 1 5 1", "i -7 -6 2", "q 1 2", "qt usz 1 2", "qt u32 1 2", "qt i16 1 2", "qt i32 1 2", "qt mix 1 2",
